@@ -23,6 +23,7 @@ type c06Case struct {
 	build  func(b *ir.Block, p []*ir.Param) value.Value    // constructs the instruction through the public API
 	want   types.Type                                      // LLVM's rule, stated here independently
 	cls    string
+	text   func(p []*ir.Param) string // a fragment the printed instruction must contain: opcode, operand order, flags as constructed
 }
 
 func vecOf(n uint64, sc bool, e types.Type) *types.VectorType {
@@ -116,7 +117,8 @@ func c06Gen(r *rng, g *tyGen, u *universe) c06Case {
 		}
 		t, _ := maybeVec(r, e)
 		return c06Case{op: op, shape: "SameAsFirst " + encT(t), params: []types.Type{t, t}, want: t,
-			build: func(b *ir.Block, p []*ir.Param) value.Value { return c06Binary(b, op, p[0], p[1]) }}
+			build: func(b *ir.Block, p []*ir.Param) value.Value { return c06Binary(b, op, p[0], p[1]) },
+			text:  func(p []*ir.Param) string { return fmt.Sprintf("= %s %s %s, %s", strings.ToLower(op), t, p[0].Ident(), p[1].Ident()) }}
 	case 2:
 		t, _ := maybeVec(r, c06Floats(r))
 		return c06Case{op: "FNeg", shape: "SameAsFirst " + encT(t), params: []types.Type{t}, want: t,
@@ -133,16 +135,24 @@ func c06Gen(r *rng, g *tyGen, u *universe) c06Case {
 		if sc {
 			cls = "scalable_vector_operand"
 		}
+		ipreds := []enum.IPred{enum.IPredEQ, enum.IPredNE, enum.IPredSGE, enum.IPredSGT, enum.IPredSLE, enum.IPredSLT, enum.IPredUGE, enum.IPredUGT, enum.IPredULE, enum.IPredULT}
+		ipnames := []string{"eq", "ne", "sge", "sgt", "sle", "slt", "uge", "ugt", "ule", "ult"}
+		pi := r.intn(len(ipreds))
 		return c06Case{op: "ICmp", shape: "ICmp " + encT(t), params: []types.Type{t, t}, want: sameShape(t, types.I1), cls: cls,
-			build: func(b *ir.Block, p []*ir.Param) value.Value { return b.NewICmp(enum.IPredEQ, p[0], p[1]) }}
+			build: func(b *ir.Block, p []*ir.Param) value.Value { return b.NewICmp(ipreds[pi], p[1], p[0]) },
+			text:  func(p []*ir.Param) string { return fmt.Sprintf("= icmp %s %s %s, %s", ipnames[pi], t, p[1].Ident(), p[0].Ident()) }}
 	case 7:
 		t, sc := maybeVec(r, c06Floats(r))
 		cls := ""
 		if sc {
 			cls = "scalable_vector_operand"
 		}
+		fpreds := []enum.FPred{enum.FPredOEQ, enum.FPredOGE, enum.FPredOLT, enum.FPredONE, enum.FPredORD, enum.FPredUEQ, enum.FPredUGT, enum.FPredULE, enum.FPredUNO, enum.FPredTrue, enum.FPredFalse}
+		fpnames := []string{"oeq", "oge", "olt", "one", "ord", "ueq", "ugt", "ule", "uno", "true", "false"}
+		pi := r.intn(len(fpreds))
 		return c06Case{op: "FCmp", shape: "FCmp " + encT(t), params: []types.Type{t, t}, want: sameShape(t, types.I1), cls: cls,
-			build: func(b *ir.Block, p []*ir.Param) value.Value { return b.NewFCmp(enum.FPredOEQ, p[0], p[1]) }}
+			build: func(b *ir.Block, p []*ir.Param) value.Value { return b.NewFCmp(fpreds[pi], p[1], p[0]) },
+			text:  func(p []*ir.Param) string { return fmt.Sprintf("= fcmp %s %s %s, %s", fpnames[pi], t, p[1].Ident(), p[0].Ident()) }}
 	case 8:
 		e := g.sized(2).build(u)
 		return c06Case{op: "Alloca", shape: "Alloca " + encT(e) + " 0", want: ptrTo(e, 0),
@@ -159,7 +169,10 @@ func c06Gen(r *rng, g *tyGen, u *universe) c06Case {
 		}
 		return c06Case{op: "CmpXchg", shape: "CmpXchg " + encT(e), params: []types.Type{ptrTo(e, 0), e, e}, want: types.NewStruct(e, types.I1),
 			build: func(b *ir.Block, p []*ir.Param) value.Value {
-				return b.NewCmpXchg(p[0], p[1], p[2], enum.AtomicOrderingSequentiallyConsistent, enum.AtomicOrderingSequentiallyConsistent)
+				return b.NewCmpXchg(p[0], p[1], p[2], enum.AtomicOrderingAcquireRelease, enum.AtomicOrderingMonotonic)
+			},
+			text: func(p []*ir.Param) string {
+				return fmt.Sprintf("= cmpxchg %s %s, %s %s, %s %s acq_rel monotonic", p[0].Type(), p[0].Ident(), e, p[1].Ident(), e, p[2].Ident())
 			}}
 	case 11:
 		var e types.Type = c06Ints(r)
@@ -172,7 +185,8 @@ func c06Gen(r *rng, g *tyGen, u *universe) c06Case {
 		}
 		as := g.pickU(g.spaces)
 		return c06Case{op: "AtomicRMW", shape: "AtomicRMW " + encT(ptrTo(e, as)), params: []types.Type{ptrTo(e, as), e}, want: e,
-			build: func(b *ir.Block, p []*ir.Param) value.Value { return b.NewAtomicRMW(op, p[0], p[1], enum.AtomicOrderingSequentiallyConsistent) }}
+			build: func(b *ir.Block, p []*ir.Param) value.Value { return b.NewAtomicRMW(op, p[0], p[1], enum.AtomicOrderingRelease) },
+			text:  func(p []*ir.Param) string { return fmt.Sprintf("= atomicrmw %s %s %s, %s %s release", op, p[0].Type(), p[0].Ident(), e, p[1].Ident()) }}
 	case 12:
 		e := c06Ints(r)
 		v := vecOf(uint64(1+r.intn(8)), r.chance(25), e)
@@ -182,7 +196,8 @@ func c06Gen(r *rng, g *tyGen, u *universe) c06Case {
 		e := c06Floats(r)
 		v := vecOf(uint64(1+r.intn(8)), r.chance(25), e)
 		return c06Case{op: "InsertElement", shape: "InsertElement " + encT(v), params: []types.Type{v, e, types.I32}, want: v,
-			build: func(b *ir.Block, p []*ir.Param) value.Value { return b.NewInsertElement(p[0], p[1], p[2]) }}
+			build: func(b *ir.Block, p []*ir.Param) value.Value { return b.NewInsertElement(p[0], p[1], p[2]) },
+			text:  func(p []*ir.Param) string { return fmt.Sprintf("= insertelement %s %s, %s %s, i32 %s", v, p[0].Ident(), e, p[1].Ident(), p[2].Ident()) }}
 	case 14:
 		e := c06Ints(r)
 		sc := r.chance(25)
@@ -260,7 +275,8 @@ func c06Gen(r *rng, g *tyGen, u *universe) c06Case {
 			t = vecOf(v.Len, v.Scalable, c06Ints(r))
 		}
 		return c06Case{op: "Select", shape: "SameAsFirst " + encT(t), params: []types.Type{c, t, t}, want: t,
-			build: func(b *ir.Block, p []*ir.Param) value.Value { return b.NewSelect(p[0], p[1], p[2]) }}
+			build: func(b *ir.Block, p []*ir.Param) value.Value { return b.NewSelect(p[0], p[2], p[1]) },
+			text:  func(p []*ir.Param) string { return fmt.Sprintf("= select %s %s, %s %s, %s %s", c, p[0].Ident(), t, p[2].Ident(), t, p[1].Ident()) }}
 	case 18: // call: direct, through a function pointer, variadic
 		ret := g.sized(2).build(u)
 		if r.chance(30) {
@@ -424,7 +440,8 @@ func c06Conv(r *rng) c06Case {
 		from, to = vecOf(n, true, from), vecOf(n, true, to)
 	}
 	return c06Case{op: cv.op, shape: "Convert " + encT(from) + " " + encT(to), params: []types.Type{from}, want: to,
-		build: func(b *ir.Block, p []*ir.Param) value.Value { return cv.mk(b, p[0], to) }}
+		build: func(b *ir.Block, p []*ir.Param) value.Value { return cv.mk(b, p[0], to) },
+		text:  func(p []*ir.Param) string { return fmt.Sprintf("= %s %s %s to %s", strings.ToLower(cv.op), from, p[0].Ident(), to) }}
 }
 
 func runC06(c *config) {
@@ -476,6 +493,9 @@ func c06One(c *config, u *universe, cs c06Case, bodies string, sample bool) {
 	}
 	wantS := "Ok " + cs.want.String()
 	det := map[string]interface{}{"op": cs.op, "shape": cs.shape, "llvm": wantS, "ir": irRes}
+	if cs.text != nil && irRes != "Panic" {
+		c06CheckText(c, cs, v, params, true)
+	}
 	if irRes != wantS {
 		o.Fail("result_type", cs.cls, "IR library's type differs from LLVM's rule", det)
 		return
@@ -580,5 +600,25 @@ func c06CallSpellings(c *config) {
 				}
 			}
 		}
+	}
+}
+
+// the printed instruction denotes what was constructed: opcode, operand order, predicate, orderings
+func c06CheckText(c *config, cs c06Case, v value.Value, params []*ir.Param, rename bool) {
+	o := c.out
+	ls, ok := v.(interface{ LLString() string })
+	if !ok {
+		return
+	}
+	if n, ok := v.(interface{ SetName(string) }); ok && rename && !types.Equal(cs.want, types.Void) {
+		n.SetName("r")
+	}
+	var got string
+	oc, _ := guard(func() error { got = ls.LLString(); return nil })
+	want := cs.text(params)
+	if oc != ocOk || !strings.Contains(got, want) {
+		o.Fail("constructed_text", "", "the printed instruction does not denote what was constructed", map[string]string{"op": cs.op, "printed": got, "expected_fragment": want})
+	} else {
+		o.Pass("constructed_text")
 	}
 }
